@@ -725,7 +725,6 @@ def check_champions(rec, case: dict, data: dict, tree, index) -> np.ndarray | No
         alarm(rec, "C11:champion:shape", f"champion fitness {fit.shape} / parameters {par.shape} for "
                                          f"{case['islands']} island(s) x {case['evolutions']} evolution(s)", case, index)
         return None
-    ok = True
     for i in range(fit.shape[0]):
         for e in range(fit.shape[1]):
             p, q = oracle_split(case["layout"], par[i, e], from_decision=False)
@@ -734,7 +733,6 @@ def check_champions(rec, case: dict, data: dict, tree, index) -> np.ndarray | No
                 rec.count("champion_fitness_compared")
                 count_classes(rec, case, "champion")
             else:
-                ok = False
                 fitness_mismatch(rec, case, data, fit[i, e], want, p, q, "champion",
                                  f"island={i} evolution={e} of {fit.shape[1]}", index)
         # (d) never worse than the one reported before
@@ -743,7 +741,6 @@ def check_champions(rec, case: dict, data: dict, tree, index) -> np.ndarray | No
             if fit[i, e] < fit[i, e - 1]:
                 rec.count("champion_improved_between_evolutions")
             if fit[i, e] > fit[i, e - 1] + 1e-12 * abs(fit[i, e - 1]):
-                ok = False
                 alarm(rec, "C11:champion:fitness-increased",
                       f"island {i}: champion fitness {fit[i, e - 1]!r} after evolution {e - 1} but {fit[i, e]!r} after "
                       f"evolution {e} (all: {fit[i].tolist()})", case, index)
@@ -763,7 +760,7 @@ def check_champions(rec, case: dict, data: dict, tree, index) -> np.ndarray | No
                 fitness_mismatch(rec, case, data, bfit[i, e, j], want, p, q, "best",
                                  f"island={i} evolution={e} individual={j}", index)
                 break
-    return par if ok else par
+    return par
 
 
 def nan_equal(a: np.ndarray, b: np.ndarray) -> bool:
@@ -909,11 +906,17 @@ def run_calib(rec, index, case: dict) -> None:
 
 # =============================================================================== plan / shards
 def plan(tier, seed):
-    if tier == "quick":
-        return [{"shard": s, "seed": seed, "kind": "mixed", "n_direct": 28, "n_calib": 3 if s % 2 == 0 else 2,
-                 "n_eval": 10, "n": 28 + (3 if s % 2 == 0 else 2)} for s in range(16)]
-    return [{"shard": s, "seed": seed, "kind": "mixed", "n_direct": 150, "n_calib": 38, "n_eval": 6, "n": 188}
-            for s in range(16)]
+    specs, g_direct, g_calib = [], 7 * seed, 5 * seed
+    for s in range(16):
+        if tier == "quick":
+            nd, nc, ne = 28, (3 if s % 2 == 0 else 2), 10
+        else:
+            nd, nc, ne = 150, 38, 6
+        specs.append({"shard": s, "seed": seed, "kind": "mixed", "n": nd + nc, "n_direct": nd, "n_eval": ne,
+                      "g_direct": g_direct, "g_calib": g_calib})
+        g_direct += nd
+        g_calib += nc
+    return specs
 
 
 def run_shard(spec, rec):
@@ -923,12 +926,9 @@ def run_shard(spec, rec):
             continue
         rng = rec.rng(i)
         if i < nd:
-            g = spec["shard"] * nd + i + spec["seed"]
-            run_direct(rec, i, gen_case(rng, "direct", g), rng, spec["n_eval"])
+            run_direct(rec, i, gen_case(rng, "direct", spec["g_direct"] + i), rng, spec["n_eval"])
         else:
-            g = spec["shard"] * 3 + (i - nd) + 5 * spec["seed"] if spec["n"] - nd <= 3 else \
-                spec["shard"] * (spec["n"] - nd) + (i - nd) + 5 * spec["seed"]
-            run_calib(rec, i, gen_case(rng, "calib", g))
+            run_calib(rec, i, gen_case(rng, "calib", spec["g_calib"] + i - nd))
 
 
 def finalize(counters, sets, tier):
